@@ -70,6 +70,7 @@ void h_remove_property(void) {
     c20_check_list(head, en, ei, n);
     properties_clear(properties);
     VF_ASSERT(head == NULL, "properties_clear leaves an empty list");
+    VF_REACHED();
 }
 #endif
 #ifdef VF_ENTRY_h_get_property
@@ -83,6 +84,7 @@ void h_get_property(void) {
     else VF_ASSERT(v != NULL && v->unsigned_integer == (uint64_t)first, "get_property returns the first entry with that name");
     Property **properties = &head;
     properties_clear(properties);
+    VF_REACHED();
 }
 #endif
 #ifdef VF_ENTRY_h_set_property
